@@ -77,6 +77,12 @@ func (e *Embed) GenerateOutput(textOnly bool) string {
 				// content of their own, and none of them was recognised.
 				dom.DetachChild(child)
 				continue
+
+			case "noscript":
+				// Its content is markup kept as plain text (frames included),
+				// which would be written out as it is.
+				dom.DetachChild(child)
+				continue
 			}
 
 			if !domutil.IsProbablyVisible(child) {
